@@ -416,7 +416,13 @@ def writer_slots(ctx, cq: str):
 def reader_slots(ctx, cq: str, n_comma: int):
     """field -> ('slot', coord, ops) | ('diff', coordA, coordB, ops) for ``read_string``."""
     M = ctx.M
-    fn = M.fn(cq + ".read_string")
+    # the field arrays keep their names (they are what the slots index); everything else is substituted into the field dict
+    keep = tuple(sorted({n.targets[0].id for n in ast.walk(M.fn(cq + ".read_string").node) if isinstance(n, ast.Assign) and
+                         isinstance(n.targets[0], ast.Name) and isinstance(n.value, ast.Call) and isinstance(n.value.func, ast.Attribute) and
+                         n.value.func.attr == "split"} |
+                        {n.targets[0].id for n in ast.walk(M.fn(cq + ".read_string").node) if isinstance(n, ast.Assign) and
+                         isinstance(n.targets[0], ast.Name) and C.dict_call_kwargs(n.value) is not None}))
+    fn = M.nfn(cq + ".read_string", subst=True, keep=keep)
     res = _resolver(M, fn.mod, fn.cls)
     arrays = {}   # name -> ('comma',) | ('colon', parent_index)
     dnode = None
